@@ -2,7 +2,7 @@ import Gonuts.Lemmas.Token
 /-!
   # C14 — tokens survive serialisation exactly; decoding arbitrary text never crashes
 
-  Theorems over `Model.Token` (the Go code of `cashu/cashu.go`, as it is).  `encoding/json` and
+  Theorems over `Model.Token` (the Go code of `cashu/cashu.go` after the `fix:` commit for defect F9).  `encoding/json` and
   `fxamacker/cbor` are the abstract `Codec`; everything else (`encoding/hex`, `encoding/base64`, the byte
   slicing of the string, the Go map grouping, the wrapping sums, the panics) is modelled and proved.
 -/
@@ -33,7 +33,7 @@ theorem v3_roundtrip (cod : Codec) (ps : List Proof) (mint : String) (dleq : Boo
   refine ⟨{ token := [{ mint := mint, proofs := if dleq then ps else ps.map Proof.clearDLEQ }],
             unit := "sat", memo := "" }, by simp [newV3, unitString], ?_⟩
   intro js henc hdec
-  obtain ⟨s, hs, hd, _⟩ := decodeToken_serializeV3 cod _ js henc hdec
+  obtain ⟨s, hs, hd, _⟩ := decodeToken_serializeV3 cod _ js henc hdec (by simp)
   have hp : (if dleq then ps else ps.map Proof.clearDLEQ) = ps.map (Proof.keep dleq) := by
     cases dleq <;> simp [Proof.keep_true, Proof.keep_false]
   refine ⟨s, by simp only [Token.serialize, hs], hd, ?_, rfl, rfl, ?_⟩
@@ -216,27 +216,8 @@ def Total (cod : Codec) (o : Out DecErr Token) : Prop :=
   | .err _ => True
   | .ok t => t.accessorsTotal cod
 
-/-- The full statement: for every behaviour of the JSON/CBOR libraries and every string. -/
-def decode_total_full : Prop := ∀ (cod : Codec) (s : String), Total cod (decodeToken cod s)
-
-/-- `DecodeToken` panics exactly on strings of fewer than 6 bytes (the unguarded `tokenstr[:6]` in
-    `DecodeTokenV4`, which runs first), whatever the libraries do. -/
-theorem decode_panic_iff (cod : Codec) (s : String) (p : Panic) :
-    decodeToken cod s = .panic p ↔ (strBytes s).length < 6 ∧ p = .sliceBounds 6 (strBytes s).length := by
-  unfold decodeToken
-  rcases decodeTokenBytes_cases cod (strBytes s) with ⟨h, e⟩ | ⟨h, ⟨e, he⟩ | ⟨t, ht⟩⟩
-  · rw [e]
-    constructor
-    · intro hp; cases hp; exact ⟨h, rfl⟩
-    · intro hp; rw [hp.2]
-  · rw [he]; constructor
-    · intro hp; cases hp
-    · intro hp; omega
-  · rw [ht]; constructor
-    · intro hp; cases hp
-    · intro hp; omega
-
-/-- `Mint()` panics exactly on a V3 token without entries (`t.Token[0]`). -/
+/-- `Mint()` panics exactly on a V3 token without entries (`t.Token[0]`) — still true of the accessor itself
+    (a hand-built `TokenV3{}`); `DecodeToken` no longer returns such a token. -/
 theorem mint_panic_iff (t : Token) (p : Panic) :
     t.mint = .panic p ↔ ∃ t3, t = .v3 t3 ∧ t3.token = [] ∧ p = .indexRange 0 0 := by
   cases t with
@@ -246,56 +227,96 @@ theorem mint_panic_iff (t : Token) (p : Panic) :
     | nil => simp [Token.mint, mintV3, h]; exact eq_comm
     | cons a b => simp [Token.mint, mintV3, h]
 
+example : (Token.v3 ⟨[], "sat", ""⟩).mint = .panic (.indexRange 0 0) := by decide
+example : (Token.v3 ⟨[⟨"https://mint", []⟩], "sat", ""⟩).mint = .ok "https://mint" := by decide
+
 /-- `Serialize()` never panics (it returns what the marshaller returned). -/
 theorem serialize_no_panic (cod : Codec) (t : Token) (p : Panic) : t.serialize cod ≠ .panic p := by
   cases t <;> simp only [Token.serialize] <;> split <;> simp
 
+/-- **Decoding any string whatsoever either returns an error or a token on which every accessor can be
+    called; it never panics** — for every `String` and for every behaviour of the JSON/CBOR libraries
+    (`cod` is universally quantified: whatever `Unmarshal` returns, the token code does not panic). -/
+theorem decode_total (cod : Codec) (s : String) : Total cod (decodeToken cod s) := by
+  unfold decodeToken
+  cases h : decodeTokenBytes cod (strBytes s) with
+  | panic p => exact absurd h (decodeTokenBytes_no_panic cod _ p)
+  | err e => trivial
+  | ok t =>
+    refine ⟨fun p hp => ?_, fun p => serialize_no_panic cod t p⟩
+    obtain ⟨t3, ht, hnil, _⟩ := (mint_panic_iff t p).1 hp
+    subst ht
+    exact decodeTokenBytes_ok_v3 cod _ t3 h hnil
+
+/-- The same, spelled out: no panic; and on success `Mint()` and `Serialize()` return (`Proofs()` and
+    `Amount()` are total functions of the model: their Go loops contain no index expression, see
+    `Tie.Token.accessors_no_index`). -/
+theorem decode_total' (cod : Codec) (s : String) :
+    (∀ p, decodeToken cod s ≠ .panic p) ∧
+    ∀ t, decodeToken cod s = .ok t → (∃ m, t.mint = .ok m) ∧ ∀ p, t.serialize cod ≠ .panic p := by
+  have h := decode_total cod s
+  constructor
+  · intro p hp; rw [hp] at h; exact h
+  · intro t ht
+    rw [ht] at h
+    refine ⟨?_, h.2⟩
+    cases hm : t.mint with
+    | ok m => exact ⟨m, rfl⟩
+    | panic p => exact absurd hm (h.1 p)
+    | err e => cases t <;> simp [Token.mint, mintV3] at hm <;> split at hm <;> cases hm
+
+/-- Every string of fewer than 6 bytes is rejected with `ErrInvalidTokenV3` (wrapped in "invalid token: …"). -/
+theorem decode_short (cod : Codec) (s : String) (h : (strBytes s).length < 6) :
+    decodeToken cod s = .err .invalidTokenV3 :=
+  decodeTokenBytes_short cod _ h
+
+/-! ### regression: the code before the `fix:` commit (defect F9) violated the statement -/
+
 private def cod0 : Codec :=
   { encJson := fun _ => none, decJson := fun _ => some ⟨[], "", ""⟩, encCbor := fun _ => none, decCbor := fun _ => none }
 
-/-- **The code violates the full statement (defect F9)**: the empty string panics in `tokenstr[:6]`. -/
-theorem decode_total_full_false : ¬ decode_total_full := by
+/-- The full statement for the code before the fix … -/
+def decode_total_old : Prop := ∀ (cod : Codec) (s : String), Total cod (decodeTokenOld cod s)
+
+/-- … was false: the empty string panicked in `tokenstr[:6]`, … -/
+theorem decode_total_old_false : ¬ decode_total_old := by
   intro h
   have := h cod0 ""
-  have e : decodeToken cod0 "" = .panic (.sliceBounds 6 0) := by decide
+  have e : decodeTokenOld cod0 "" = .panic (.sliceBounds 6 0) := by decide
   rw [e] at this
   exact this
 
-/-- Second, independent witness: `"cashuAe30"` (base64 of `{}`) decodes without error whenever
-    `json.Unmarshal` does what it does on `{}` (a `TokenV3` with no entries), and `Mint()` then panics. -/
-theorem decode_total_full_false' : ∃ cod, ¬ Total cod (decodeToken cod "cashuAe30") := by
+/-- … and `"cashuAe30"` (base64 of `{}`) decoded without error whenever `json.Unmarshal` does what it does
+    on `{}` (a `TokenV3` with no entries), after which `Mint()` panicked. -/
+theorem decode_total_old_false' : ∃ cod, ¬ Total cod (decodeTokenOld cod "cashuAe30") := by
   refine ⟨cod0, ?_⟩
-  have e : decodeToken cod0 "cashuAe30" = .ok (.v3 ⟨[], "", ""⟩) := by decide
+  have e : decodeTokenOld cod0 "cashuAe30" = .ok (.v3 ⟨[], "", ""⟩) := by decide
   rw [e]
   intro h
   exact h.1 (.indexRange 0 0) (by decide)
 
-/-- **What does hold for the code as it is**: on strings of at least 6 bytes `DecodeToken` never panics, and
-    on the returned token no accessor panics unless it is a V3 token without entries — for every behaviour of
-    the libraries. -/
-theorem decode_total_partial (cod : Codec) (s : String) (hlen : 6 ≤ (strBytes s).length) :
-    (∀ p, decodeToken cod s ≠ .panic p) ∧
-    ∀ t, decodeToken cod s = .ok t → (∀ t3, t = .v3 t3 → t3.token ≠ []) → t.accessorsTotal cod := by
-  constructor
-  · intro p hp
-    have := ((decode_panic_iff cod s p).1 hp).1
-    omega
-  · intro t _ hne
-    refine ⟨fun p hp => ?_, fun p => serialize_no_panic cod t p⟩
-    obtain ⟨t3, ht, hnil, _⟩ := (mint_panic_iff t p).1 hp
-    exact hne t3 ht hnil
+/-- Before the fix `DecodeToken` panicked exactly on strings of fewer than 6 bytes, whatever the libraries do. -/
+theorem decodeOld_panic_iff (cod : Codec) (s : String) (p : Panic) :
+    decodeTokenOld cod s = .panic p ↔ (strBytes s).length < 6 ∧ p = .sliceBounds 6 (strBytes s).length :=
+  decodeTokenBytesOld_panic_iff cod _ p
 
--- decode_total_partial: there are strings of ≥ 6 bytes on which DecodeToken returns a token with entries
-example : ∃ cod t, 6 ≤ (strBytes "cashuAe30").length ∧ decodeToken cod "cashuAe30" = .ok t ∧
-    ∀ t3, t = .v3 t3 → t3.token ≠ [] :=
-  ⟨codEx ⟨[⟨"m", []⟩], "sat", ""⟩ default, .v3 ⟨[⟨"m", []⟩], "sat", ""⟩, by decide, by decide,
-   by intro t3 h; cases h; decide⟩
+-- the old witnesses are now rejected with an error (same codec as in the counterexamples)
+example : decodeToken cod0 "" = .err .invalidTokenV3 := by decide
+example : decodeToken cod0 "cashu" = .err .invalidTokenV3 := by decide
+example : decodeToken cod0 "cashuAe30" = .err .invalidTokenV3 := by decide
+example : decodeToken cod0 "cashuAeyJ0b2tlbiI6W119" = .err .invalidTokenV3 := by decide
+example : decodeTokenOld cod0 "cashu" = .panic (.sliceBounds 6 5) := by decide
+
+-- decode_total: there are strings on which DecodeToken returns a token (so the `ok` branch is inhabited)
+example : ∃ cod t, decodeToken cod "cashuAe30" = .ok t :=
+  ⟨codEx ⟨[⟨"m", []⟩], "sat", ""⟩ default, .v3 ⟨[⟨"m", []⟩], "sat", ""⟩, by decide⟩
 -- … strings on which it returns an error at each stage
 example : decodeToken (codEx default default) "cashuC-----" = .err .invalidTokenV3 := by decide
 example : decodeToken (codEx default default) "cashuAe3=0" = .err (.base64 2) := by decide
 example : decodeToken (codEx default default) "cashuAAAAA" = .err .unmarshal := by decide
 -- … and a multi-byte character straddling the cut at byte 6 is sliced by bytes, as in Go
 example : (strBytes "cashu€").length = 8 ∧ decodeToken (codEx default default) "cashu€" = .err .invalidTokenV3 := by decide
-example : decodeToken (codEx default default) "🥜" = .panic (.sliceBounds 6 4) := by decide
+example : decodeToken (codEx default default) "🥜" = .err .invalidTokenV3 ∧
+    decodeTokenOld (codEx default default) "🥜" = .panic (.sliceBounds 6 4) := by decide
 
 end Gonuts.Props.C14
